@@ -526,6 +526,14 @@ class C06(NlpCheck):
             if m['kind'] == 'dc' and 'troots' in phys:
                 # collocation times: t_k + (h_k/M)(i + tau_j), the interval's OWN step
                 checks.append(("integrator_roots time vector", got['roots'], 'troots', False))
+            if 'tfine' in phys:
+                fine = []
+                for a, b_ in zip(flat_intg, flat_intg[1:]):
+                    fine += [a + (b_ - a) * Fr(j, 3) for j in range(3)]
+                fine.append(flat_intg[-1])
+                checks.append(("refined integrator time vector (refine=3)", fine, 'tfine', False))
+                checks.append(("sampled ocp.t on the refined integrator grid", fine, 'tfinesamp', True))
+                self.count("refined-integrator-times-compared")
             for name, mv, key, col in checks:
                 msg = cmp(name, mv, key, col)
                 if msg:
@@ -655,7 +663,7 @@ def impl_vs_impl(chk, bA, bB, xv, pA, pB, what):
 @register
 class C09(NlpCheck):
     pid = "C09"
-    slices = ["parametric-nlp", "shifted-operands-with-interval-parameters", "constants-written-in", "set_value-histories"]
+    slices = ["parametric-nlp", "shifted-operands-with-interval-parameters", "constants-written-in", "set_value-histories", "matrix-valued-parameters"]
     tags = None
     whole = True
     want_f = True
@@ -682,6 +690,109 @@ class C09(NlpCheck):
         NlpCheck.correspondence(self)
         self.constants_slice()
         self.history_slice()
+        self.matrix_parameter_slice()
+
+    def matrix_parameter_slice(self):
+        """matrix-valued parameters keep their element layout: a matrix A (also per-interval), a vector b and a scalar c enter the dynamics,
+        the objective and a constraint element by element; values are given one symbol per call or through ONE call on a concatenation
+        (horzcat / veccat / vertcat of the symbols, which set_value documents), before the first transcription or after it; the NLP is
+        the one of the same OCP with the numbers written in"""
+        import casadi as ca
+        import numpy as np
+        rockit = B.import_rockit()
+        name = "matrix-valued-parameters"
+        n = 8 if self.tier == 'quick' else 80
+        rng = self.rng
+        for it in range(n):
+            meth = ['ms', 'dc', 'ss'][it % 3]
+            N, M = rng.randint(2, 3), rng.randint(1, 2)
+            style = ['separate', 'horzcat', 'veccat', 'vertcat-bc'][it % 4]
+            when = ['before', 'after'][(it // 4) % 2]
+            ncolA = rng.choice([2, 3])
+            val = lambda r, c_: [[rng.randint(-8, 8) / 4.0 for _ in range(c_)] for _ in range(r)]
+            Av, bv, cv = val(2, ncolA), val(2, 1), rng.randint(1, 8) / 4.0
+            A0, b0, c0 = val(2, ncolA), val(2, 1), rng.randint(1, 8) / 4.0       # first values (replaced when `when == 'after'`)
+            info = {"method": meth, "N": N, "M": M, "style": style, "when": when, "A": Av, "b": bv, "c": cv}
+
+            def make(parametric):
+                with B.quiet():
+                    ocp = rockit.Ocp(t0=0.5, T=2.0)
+                    x = ocp.state(2)
+                    u = ocp.control(ncolA)
+                    if parametric:
+                        A = ocp.parameter(2, ncolA)
+                        b_ = ocp.parameter(2)
+                        c_ = ocp.parameter()
+                    else:
+                        A, b_, c_ = ca.DM(Av), ca.DM(bv), cv
+                    ocp.set_der(x, -x + ca.mtimes(A, u) + b_ * c_)
+                    ocp.add_objective(ocp.integral(ca.sumsqr(x) + ca.sumsqr(u)) + ocp.at_tf(ca.dot(b_, x)) * c_)
+                    ocp.subject_to(ocp.at_t0(x) == b_)
+                    ocp.subject_to(ca.mtimes(A, u) <= 5 + c_)
+                    ocp.method({'ms': rockit.MultipleShooting(N=N, M=M, intg='rk'), 'ss': rockit.SingleShooting(N=N, M=M, intg='rk'),
+                                'dc': rockit.DirectCollocation(N=N, M=M, degree=2)}[meth])
+                    ocp.solver('ipopt', {'ipopt.print_level': 0, 'print_time': False, 'ipopt.max_iter': 0, 'ipopt.sb': 'yes'})
+                    if parametric:
+                        def assign(Aw, bw, cw):
+                            if style == 'separate':
+                                ocp.set_value(A, ca.DM(Aw)); ocp.set_value(b_, ca.DM(bw)); ocp.set_value(c_, cw)
+                            elif style == 'horzcat':
+                                ocp.set_value(ca.horzcat(A, b_), ca.horzcat(ca.DM(Aw), ca.DM(bw))); ocp.set_value(c_, cw)
+                            elif style == 'veccat':
+                                ocp.set_value(ca.veccat(A, b_, c_), ca.veccat(ca.DM(Aw), ca.DM(bw), cw))
+                            else:
+                                ocp.set_value(A, ca.DM(Aw)); ocp.set_value(ca.vertcat(b_, c_), ca.vertcat(ca.DM(bw), cw))
+                        if when == 'before':
+                            assign(Av, bv, cv)
+                            ocp._transcribed
+                        else:
+                            assign(A0, b0, c0)
+                            ocp._transcribed
+                            assign(Av, bv, cv)
+                    else:
+                        ocp._transcribed
+                    opti = ocp._method.opti
+                    F = ca.Function('F', [opti.x, opti.p], [opti.f, opti.g, opti.lbg, opti.ubg])
+                    pv = np.array(opti.debug.value(opti.p, opti.initial())).flatten() if opti.p.numel() else []
+                return F, pv, opti.x.numel()
+            try:
+                FP, pP, nP = make(True)
+                FC, pC, nC = make(False)
+            except Exception as ex:
+                self.slice_ok[name] = False
+                self.violation("matrix-valued parameters (%s, values %s transcription) raised %s: %s" % (style, when, type(ex).__name__, str(ex)[:200]),
+                               {"case": info}, {"kind": "exception", "what": "matrix-parameter"})
+                return
+            self.evaluations += 1
+            self.signatures.add(repr((meth, N, M, style, when, ncolA)))
+            self.count("matrix-parameter:%s:%s" % (style, when))
+            err = None
+            if nP != nC:
+                err = "%d decision variables with parameters, %d with constants" % (nP, nC)
+            else:
+                xv = [rng.choice([-1.5, -0.5, 0.5, 1.0, 2.0]) for _ in range(nP)]
+                rP = [np.array(v).flatten() for v in FP(xv, pP)]
+                rC = [np.array(v).flatten() for v in FC(xv, pC)]
+
+                def atoms(r):
+                    out = []
+                    for g_, lo, hi in zip(r[1], r[2], r[3]):
+                        if np.isfinite(lo):
+                            out.append(g_ - lo)
+                        if np.isfinite(hi):
+                            out.append(hi - g_)
+                    return sorted(out)
+                if abs(rP[0][0] - rC[0][0]) > 1e-9 * max(1.0, abs(rC[0][0])):
+                    err = "objective %r with parameters, %r with the values written in" % (rP[0][0], rC[0][0])
+                else:
+                    aP, aC = atoms(rP), atoms(rC)
+                    if len(aP) != len(aC) or any(abs(a - b__) > 1e-9 * max(1.0, abs(a), abs(b__)) for a, b__ in zip(aP, aC)):
+                        err = "constraint rows differ between the parametric problem and the one with the values written in"
+            if err:
+                self.slice_ok[name] = False
+                self.violation("matrix-valued parameters assigned through %s %s the first transcription: %s" % (style, when, err), {"case": info},
+                               {"kind": "matrix-parameter", "style": style, "when": when})
+                return
 
     def constants_slice(self):
         n = 10 if self.tier == 'quick' else 120
@@ -947,7 +1058,7 @@ def var_map(b):
 @register
 class C14(NlpCheck):
     pid = "C14"
-    slices = ["scaled-nlp", "scaled-vs-unscaled", "layout-is-diag-scale"]
+    slices = ["scaled-nlp", "scaled-vs-unscaled", "layout-is-diag-scale", "polynomial-controls"]
     tags = None
     whole = True
     want_f = True
@@ -969,6 +1080,76 @@ class C14(NlpCheck):
     def correspondence(self):
         NlpCheck.correspondence(self)
         self.twin_slice()
+        self.polynomial_controls_slice()
+
+    def polynomial_controls_slice(self):
+        """ocp.control(order=k>=1, scale=s): rockit builds it as a state driven by a lower-order helper control. The solver variables of the
+        declared control (its node values) are the physical ones divided by s: the Jacobian of the sampled control w.r.t. the solver
+        variables has entries s only, the starting point is guess/s, and objective and rows at the same physical point do not depend on s"""
+        import casadi as ca
+        import numpy as np
+        rockit = B.import_rockit()
+        name = "polynomial-controls"
+        n = 6 if self.tier == 'quick' else 60
+        rng = self.rng
+        for it in range(n):
+            order = rng.choice([1, 1, 2])
+            nu = rng.choice([1, 2])
+            sc = [rng.choice([0.5, 2.0, 4.0, 5.0]) for _ in range(nu)]
+            meth = ['ms', 'dc', 'ss'][it % 3]
+            N, M = rng.randint(2, 3), rng.randint(1, 2)
+            guess = rng.randint(1, 8) / 2.0
+            info = {"order": order, "nu": nu, "scale": sc, "method": meth, "N": N, "M": M, "guess": guess}
+
+            def make(scale):
+                with B.quiet():
+                    ocp = rockit.Ocp(t0=0.5, T=2.0)
+                    x = ocp.state()
+                    u = ocp.control(nu, order=order, scale=(ca.DM(scale) if nu > 1 else scale[0]) if scale else 1)
+                    ocp.set_der(x, -x + ca.sum1(u))
+                    ocp.add_objective(ocp.integral(x ** 2 + ca.sumsqr(u)))
+                    ocp.subject_to(ocp.at_t0(x) == 1)
+                    ocp.subject_to(-10 <= (u <= 10))
+                    ocp.set_initial(u, guess)
+                    ocp.method({'ms': rockit.MultipleShooting(N=N, M=M, intg='rk'), 'ss': rockit.SingleShooting(N=N, M=M, intg='rk'),
+                                'dc': rockit.DirectCollocation(N=N, M=M, degree=2)}[meth])
+                    ocp.solver('ipopt', {'ipopt.print_level': 0, 'print_time': False, 'ipopt.max_iter': 0, 'ipopt.sb': 'yes'})
+                    ocp._transcribed
+                    opti = ocp._method.opti
+                    us = ocp.sample(u, grid='control')[1]
+                    J = ca.Function('J', [opti.x, opti.p], [ca.jacobian(ca.vec(us), opti.x), ca.vec(us), opti.f])
+                    x0 = np.array(opti.debug.value(opti.x, opti.initial())).flatten()
+                    pv = np.array(opti.debug.value(opti.p, opti.initial())).flatten() if opti.p.numel() else []
+                    Jv, uv, fv = J(x0, pv)
+                return np.array(Jv), np.array(uv).flatten(), float(fv), x0
+            try:
+                Js, us_, fs, x0s = make(sc)
+                Ju, uu, fu, x0u = make(None)
+            except Exception as ex:
+                self.slice_ok[name] = False
+                self.violation("control(order=%d, scale=%s) raised %s: %s" % (order, sc, type(ex).__name__, str(ex)[:200]), {"case": info}, {"kind": "exception", "what": "polynomial-control"})
+                return
+            self.evaluations += 1
+            self.signatures.add(repr(info))
+            self.count("polynomial-control-order:%d" % order)
+            err = None
+            # node values of the control: component r of node k is entry k*nu + r of vec(us)
+            for row in range(Js.shape[0]):
+                if meth == 'ss' and row // nu > 0:
+                    continue     # single shooting: a polynomial control is a state; only its first node is a decision variable
+                nz = [v for v in Js[row] if abs(v) > 1e-14]
+                want = sc[row % nu]
+                if len(nz) != 1 or abs(nz[0] - want) > 1e-12:
+                    err = "d(sampled control component %d at node %d)/d(solver variables) has entries %s, the declared scale is %s" % (row % nu, row // nu, nz, want)
+                    break
+            if err is None and any(abs(v - guess) > 1e-12 for v in (us_[:nu] if meth == 'ss' else us_)):
+                err = "the control starts at %s, the guess is %s" % (list(us_), guess)
+            if err is None and abs(fs - fu) > 1e-9 * max(1.0, abs(fu)):
+                err = "objective at the starting point is %r with scale=%s and %r without" % (fs, sc, fu)
+            if err:
+                self.slice_ok[name] = False
+                self.violation("polynomial control: " + err, {"case": info}, {"kind": "polynomial-control", "order": order})
+                return
 
     def twin_slice(self):
         import casadi as ca
@@ -1649,10 +1830,12 @@ class C13(Check):
             ['solve', 'set_value', 'solve'],
             ['value', 'method', 'set_initial:expr', 'set_T'],
         ]
-        nplanned = len(PLANNED) * (1 if self.tier == 'quick' else 6)
+        nplanned = len(PLANNED) * (2 if self.tier == 'quick' else 8)
         for case_i in range(n + nplanned):
             planned = list(PLANNED[case_i % len(PLANNED)]) if case_i < nplanned else []
-            desc = G.gen_case(self.rng, dict(prof, horizon=['freeT']) if planned and 'set_T' in planned else prof)
+            # a new horizon guess shows in the starting point through guesses written in ocp.t: not under single shooting (only X[0] is a
+            # decision variable there)
+            desc = G.gen_case(self.rng, dict(prof, horizon=['freeT'], methods=[('ms', 'rk'), ('dc', 'rk'), ('ms', 'euler')]) if planned and 'set_T' in planned else prof)
             desc['param_values'] = {}
             try:
                 bA = B.build(desc, transcribe=False)
@@ -1728,6 +1911,8 @@ class C13(Check):
                             ops.append(('solver', opts['ipopt.max_iter']))
                         elif op == 'set_T':
                             v = Fr(self.rng.randint(1, 8), 2)
+                            if cur['T'][0] == 'free' and v == cur['T'][1]:
+                                v = v + Fr(3, 2)        # a guess that differs from the one in effect
                             if cur['T'][0] == 'free':
                                 # the horizon is a decision variable: what can change is its guess
                                 g = ('T', 0, ('num', [float(v)]))
@@ -2014,11 +2199,22 @@ class C20(Check):
             return
         import casadi as ca
         for fault in ('spline_nonlinear', 'spline_time_varying'):
-            for rep in range(1 if self.tier == 'quick' else 5):
-                ocp = Ocp(T=2.0)
+            # every way the right-hand side can be nonlinear / depend on time: as a factor, as an added term, in the first link of the chain
+            forms = ['factor', 'added-term', 'first-link']
+            for rep in range(len(forms) if self.tier == 'quick' else 3 * len(forms)):
+                form = forms[rep % len(forms)]
+                ocp = Ocp(T=2.0, t0=self.rng.choice([0.0, 0.5]))
                 x = ocp.state(); v = ocp.state(); u = ocp.control()
-                ocp.set_der(x, v)
-                ocp.set_der(v, u * (x if fault == 'spline_nonlinear' else ocp.t))
+                bad = (x if fault == 'spline_nonlinear' else ocp.t)
+                if form == 'factor':
+                    ocp.set_der(x, v)
+                    ocp.set_der(v, u * bad)
+                elif form == 'added-term':
+                    ocp.set_der(x, v)
+                    ocp.set_der(v, u + (x ** 2 if fault == 'spline_nonlinear' else 3 * ca.sin(2 * ocp.t)))
+                else:
+                    ocp.set_der(x, v + (ca.sin(v) if fault == 'spline_nonlinear' else ocp.t ** 2))
+                    ocp.set_der(v, u)
                 ocp.add_objective(ocp.at_tf(x))
                 ocp.subject_to(ocp.at_t0(x) == 0)
                 ocp.solver('ipopt', {'ipopt.print_level': 0, 'print_time': False, 'ipopt.sb': 'yes'})
@@ -2031,11 +2227,12 @@ class C20(Check):
                     except Exception as ex:
                         raised = ex
                 self.evaluations += 1
-                self.signatures.add((fault, 'spline'))
+                self.signatures.add((fault, 'spline', form))
                 self.count("fault:" + fault)
+                self.count("spline-fault-form:" + form)
                 if raised is None or self.count_solver_calls() != n0:
                     self.slice_ok["fault-matrix"] = False
-                    self.violation("SplineMethod accepted %s dynamics" % ("nonlinear" if fault == 'spline_nonlinear' else "time-varying"), {"fault": fault}, {"kind": "fault-accepted", "fault": fault, "method": "spline"})
+                    self.violation("SplineMethod accepted %s dynamics (%s)" % ("nonlinear" if fault == 'spline_nonlinear' else "time-varying", form), {"fault": fault, "form": form}, {"kind": "fault-accepted", "fault": fault, "method": "spline", "form": form})
 
 
 def sym_offsets(sizes):
@@ -2071,7 +2268,8 @@ class C10(Check):
         val = lambda: rng.randint(-12, 12) / 4.0
         if f == 'scalar':
             c = val()
-            return ('num', [c] * n) if n > 1 or rng.random() < 0.5 else ('num', [c]), [('const', Fr(c))] * n
+            # one number for the whole symbol — also when the symbol is a vector ("constants everywhere")
+            return ('num', [c]) if rng.random() < 0.5 else ('num', [c] * n), [('const', Fr(c))] * n
         if f == 'vector':
             cs = [val() for _ in range(n)]
             return ('num', cs), [('const', Fr(c)) for c in cs]
